@@ -11,7 +11,7 @@ use ark_poly_commit::{LabeledCommitment, LabeledPolynomial, PCCommitterKey, Poly
 use ark_serialize::CanonicalDeserialize;
 use ark_std::rand::Rng;
 
-pub const VERIFIER_KINDS: &[&str] = &["prover-other-trim", "bound-mislabelled", "bound-mislabelled-unenforced", "bound-mislabelled-both", "bound-label-dropped", "shifted-dropped", "shifted-swapped", "shifted-exchanged", "shifted-other-bound", "unbounded-gets-label"];
+pub const VERIFIER_KINDS: &[&str] = &["prover-other-trim", "bound-mislabelled", "bound-mislabelled-unenforced", "bound-mislabelled-both", "bound-label-dropped", "shifted-dropped", "shifted-swapped", "shifted-exchanged", "shifted-identity", "unbounded-gets-label-identity-shift", "shifted-other-bound", "unbounded-gets-label"];
 pub const PROVER_KINDS: &[&str] = &["commit-degree-exceeds-bound", "commit-bound-not-enforced", "commit-no-bounds-in-key", "commit-degree-exceeds-supported", "commit-bound-above-supported", "open-degree-exceeds-bound", "open-bound-not-enforced"];
 
 pub fn generate(run_seed: u64) -> Scenario {
@@ -211,6 +211,19 @@ pub fn run<S: Scheme>(scn: &Scenario, log: &EventLog) -> RunResult {
                             }
                             _ => None,
                         }
+                    }
+                }
+                ("shifted-identity", Some(dp)) => {
+                    // the degree-bound part replaced by the group identity (what an honest committer
+                    // produces for the zero polynomial only)
+                    S::comm_with_identity_shift(mine.commitment()).filter(|c| to_bytes(c, ark_serialize::Compress::Yes) != to_bytes(mine.commitment(), ark_serialize::Compress::Yes)).map(|c| relabel::<S>(&mine, c, Some(dp)))
+                }
+                ("unbounded-gets-label-identity-shift", None) => {
+                    // an unbounded commitment presented under a bound, with the identity where the
+                    // degree-bound part belongs
+                    let pool: Vec<usize> = if f.param % 2 == 0 { all_bounds.clone() } else { (1..=cfg.max_degree).collect() };
+                    if pool.is_empty() { None } else {
+                        S::comm_with_identity_shift(mine.commitment()).map(|c| relabel::<S>(&mine, c, Some(pool[(f.param as usize / 2) % pool.len()])))
                     }
                 }
                 ("shifted-other-bound", Some(dp)) => {
